@@ -11,6 +11,7 @@ import (
 	"time"
 
 	"github.com/andybalholm/brotli"
+	"github.com/bfenetworks/bfe/bfe_module"
 
 	"verifharness/e2e"
 	"verifharness/ref/http1"
@@ -187,7 +188,7 @@ func c54(r *vkit.Run) {
 		if w.XRound != nil {
 			// an interference is a matter of scheduling: the round is repeated
 			for i := 0; i < 40; i++ {
-				rounds = append(rounds, w.XRound)
+				rounds = append(rounds, w.XRound.variant(i))
 			}
 		}
 		r.SetMinDistinct(0)
@@ -356,6 +357,7 @@ func c54(r *vkit.Run) {
 	// interference family: rounds of aborted and well-behaved compressed responses
 	fired0 := c54XCancelFired()
 	xenv := &c54XEnv{r: r, addr: srv.HTTPAddr, be: xbe}
+	srv.Srv.CallBacks.AddFilter(bfe_module.HandleRequestFinish, xenv.noteFinish)
 	vkit.Parallel(len(rounds), 12, func(i int) { xenv.run(rounds[i]) })
 	if r.Replay == "" {
 		c54XFinish(r, c54XCancelFired()-fired0)
